@@ -33,11 +33,11 @@ def check(ctx: Ctx) -> str:
 
     ctx.rule("R7", "recursion: loop(children) always runs the loop function for the nested level (whatever the iterable - an empty level still renders its else branch); the only other exit is the TypeError for a non-recursive loop")
     lcall = ctx.repo.func("runtime:LoopContext.__call__")
-    rets = [r for r in astq.returns(lcall.node) if r.value is not None]
+    rets = [r for r in astq.returns(lcall.nnode) if r.value is not None]  # a local naming self._recurse is inlined
     par = lcall.node.args.args[1].arg if len(lcall.node.args.args) > 1 else "iterable"
-    ok = len(rets) == 1 and ast.unparse(rets[0].value) == f"self._recurse({par}, self._recurse, depth=self.depth)" and astq.guard_atoms(lcall.node, rets[0]) == [("self._recurse is None", False)]
+    ok = len(rets) == 1 and ast.unparse(rets[0].value) == f"self._recurse({par}, self._recurse, depth=self.depth)" and astq.guard_atoms(lcall.nnode, rets[0]) == [("self._recurse is None", False)]
     ctx.check(ok, "loop-call:delegates", "runtime:LoopContext.__call__", f"returns {[ast.unparse(r.value)[:40] for r in rets]}",
-              f"LoopContext.__call__ must return self._recurse({par}, self._recurse, depth=self.depth) on every path of a recursive loop (found {[(ast.unparse(r.value)[:40], astq.guard_atoms(lcall.node, r)) for r in rets]}): a shortcut for an empty / falsy level skips the nested loop, so its `{{% else %}}` branch is not rendered",
+              f"LoopContext.__call__ must return self._recurse({par}, self._recurse, depth=self.depth) on every path of a recursive loop (found {[(ast.unparse(r.value)[:40], astq.guard_atoms(lcall.nnode, r)) for r in rets]}): a shortcut for an empty / falsy level skips the nested loop, so its `{{% else %}}` branch is not rendered",
               lcall.loc())
     ctx.check("__call__" not in ctx.repo.cls("runtime:AsyncLoopContext").methods, "loop-call:async-inherits", "runtime:AsyncLoopContext", "async loop call", "AsyncLoopContext must inherit __call__ (the recursive render function is awaited by the caller)", lcall.loc())
     return __doc__ or ""
@@ -131,7 +131,9 @@ def rest(ctx: Ctx) -> None:
     }
     for name, want in forms.items():
         fn = lc.methods[name]
-        r = astq.returns(fn)
+        from ..normalize import norm as _norm
+
+        r = astq.returns(_norm(fn))  # locals naming self.length / self.index are inlined
         got = astq.linear(r[0].value) if len(r) == 1 and r[0].value is not None else None
         ctx.check(got == want, f"form:{name}", f"runtime:LoopContext.{name}", f"{name} formula", f"LoopContext.{name} returns `{ast.unparse(r[0].value) if r else ''}` (normal form {got}), documented {want}", lc.loc(fn), detail={"name": name, "normal_form": got})
     fn = lc.methods["first"]
